@@ -21,7 +21,7 @@ func init() {
 	core.Register(&core.Check{
 		ID:          "C05",
 		Level:       "exploration",
-		Rule:        "a valid generated base program (effects at the very start and in every block, functions, an event handler, graphics calls) plus exactly one rule-breaking edit from a catalogue of 35 edit kinds (undeclared/unused variable, variable of a sibling if-branch, redeclaration incl. parameters, repeated handler parameter names, err / errmsg declared in nested scopes, as parameters and as loop variables, parameter without the colon between name and type, loop variables, built-in globals and function names, type mismatches, argument counts, missing return at the end and in a single branch of an if/else-if/else chain, unreachable code (directly after the terminating statement and after comment / blank lines), break outside a loop, return value in a procedure/handler/top level, bare return in a function, unknown function, call of a procedure used as a value (element, map value, operand, argument, declaration), stray tokens after statements, after func / on headers (also after a variadic marker) and after every kind of end, assignment to a character of a string element, anonymous handler parameter of the wrong type, two statements on one line, non-bool condition), applied at every line where the rule applies; each case runs in-process through Evaluator.Run with the recording platform and, sampled, through the real `evy run` (with and without --svg-out). distinct = distinct (edit kind, line kind, error message shape)",
+		Rule:        "a valid generated base program (effects at the very start and in every block, functions, an event handler, graphics calls) plus exactly one rule-breaking edit from a catalogue of 36 edit kinds (undeclared/unused variable, variable of a sibling if-branch, redeclaration incl. parameters, repeated handler parameter names, err / errmsg declared in nested scopes, as parameters and as loop variables, parameter without the colon between name and type, loop variables, built-in globals and function names, type mismatches, argument counts, missing return at the end and in a single branch of an if/else-if/else chain, unreachable code (directly after the terminating statement and after comment / blank lines), break outside a loop, return value in a procedure/handler/top level, bare return in a function and at top level (directly and inside top-level blocks, before and after handlers), unknown function, call of a procedure used as a value (element, map value, operand, argument, declaration), stray tokens after statements, after func / on headers (also after a variadic marker) and after every kind of end, assignment to a character of a string element, anonymous handler parameter of the wrong type, two statements on one line, non-bool condition), applied at every line where the rule applies; each case runs in-process through Evaluator.Run with the recording platform and, sampled, through the real `evy run` (with and without --svg-out). distinct = distinct (edit kind, line kind, error message shape)",
 		Assumptions: []string{"base programs are produced by the C10 generator (accepted by construction; a rejected base is reported as a harness failure)"},
 		NeedsEvy:    true,
 		NumCases: func(tier string) int {
@@ -191,6 +191,7 @@ func c05Edits() []c05Edit {
 		ins("break-outside-loop", "break", func(l c05Line) bool { return !l.inLoop && l.kind != "if" && l.kind != "elseif" && l.kind != "else" }),
 		ins("return-value-in-procedure", "return 1", func(l c05Line) bool { return l.inFunc == "proc" || l.inFunc == "on" }),
 		ins("return-at-top-level", "return 1", func(l c05Line) bool { return l.inFunc == "" && l.indent == "" && l.kind == "end" }),
+		ins("bare-return-at-top-level", "return", func(l c05Line) bool { return l.inFunc == "" }),
 		ins("procedure-call-as-value", "print [(noret_q)]", any),
 		ins("procedure-call-as-value", "print {a:(noret_q)}", func(l c05Line) bool { return l.kind == "decl" || l.kind == "end" }),
 		ins("procedure-call-as-value", "print (noret_q)==(noret_q)", func(l c05Line) bool { return l.kind == "decl" || l.kind == "end" }),
